@@ -79,3 +79,9 @@
         /// ran with guessing forbidden (recorded by eval_asm::resolve_once's stub contract)
         pub uninterp spec fn asm_strict_value(r: &diagn::Report) -> expr::Value;
         pub uninterp spec fn asm_strict_stable(r: &diagn::Report) -> bool;
+
+        /// C04, data directives: the value v fits the directive width n and `stored` holds exactly its n low bits
+        pub open spec fn data_fits(v: util::BigInt, n: usize, stored: util::BigInt) -> bool {
+            v.size_or_min_size_spec() <= n
+            && (v.fits_size() ==> forall|j: nat| #[trigger] bit_of(stored.val(), j) == (j < n && bit_of(v.val(), j)))
+        }
